@@ -37,14 +37,35 @@ func (vc *VC) freshResult(sig *types.Signature, hint string) *Val {
 
 // havocAll forgets everything about heap, globals and ghost state.
 func (vc *VC) havocAll(why string) {
-	if vc.checkFrame && !vc.modAll && vc.discovery == 0 {
+	vc.havocEverything(why, false)
+}
+
+// havocHeap forgets heap and globals but keeps ghost state.
+func (vc *VC) havocHeap(why string) {
+	vc.havocEverything(why, true)
+}
+
+func (vc *VC) havocEverything(why string, keepGhost bool) {
+	if keepGhost {
+		if vc.checkFrame && !vc.modAll && !vc.modHeap && vc.discovery == 0 {
+			vc.oblige("frame", "havoc-heap", "false", token.NoPos, "a callee that may change the whole heap is called ("+why+"), so the function must declare `modifies heap`")
+		}
+		// pin the current versions of all ghost variables
+		for name, g := range vc.p.db.Ghosts {
+			t := vc.resolveType(g.Type, g.Pkg, g.Imports, true)
+			k := "G." + name
+			if _, ok := vc.st.m[k]; !ok {
+				vc.st.m[k] = vc.get(k, vc.sortOf(t))
+			}
+		}
+	} else if vc.checkFrame && !vc.modAll && vc.discovery == 0 {
 		vc.oblige("frame", "havoc", "false", token.NoPos, "code without a contract is called ("+why+"), so the function must declare `modifies *`")
 	}
 	vc.nfresh++
 	ep := fmt.Sprintf("e%d", vc.nfresh)
 	oldAlloc := vc.get("alloc", "Int")
 	for k := range vc.st.m {
-		if heapLike(k) {
+		if heapLike(k) && !(keepGhost && strings.HasPrefix(k, "G.")) {
 			delete(vc.st.m, k)
 		}
 	}
@@ -92,6 +113,10 @@ func (vc *VC) execCall(fr *Frame, c *ssa.CallCommon, site ssa.Instruction, pos t
 				return vc.callFunction(fr, fn, nil, append([]*Val{recv}, args...), fn.Signature, pos)
 			}
 		}
+	}
+	if n, ok := c.Value.Type().(*types.Named); ok && n.Obj().Pkg() != nil && n.Obj().Pkg().Path() == "context" && n.Obj().Name() == "CancelFunc" {
+		vc.used.Assumes["calling a context.CancelFunc has no effect on the state the contracts talk about"] = true
+		return &Val{Ty: types.NewTuple()}
 	}
 	vc.used.Havocked["call of an unknown function value at "+vc.p.relPos(pos)] = true
 	vc.havocAll("call through a function value")
@@ -284,6 +309,16 @@ func (vc *VC) freeVarSpecVal(b *Val) *Val {
 	if b.Loc != nil && b.T == "" {
 		return &Val{Loc: b.Loc, Ty: b.Loc.targetType()}
 	}
+	// a captured variable that lives in a heap cell: the name denotes its value
+	if pt, ok := b.Ty.Underlying().(*types.Pointer); ok && b.T != "" {
+		et := pt.Elem()
+		if _, isStruct := et.Underlying().(*types.Struct); !isStruct || vc.isOpaqueStruct(et) {
+			if _, isArr := et.Underlying().(*types.Array); !isArr {
+				hn, _ := vc.cellHeap(et)
+				return &Val{Loc: &Loc{Kind: RCell, Heap: hn, Base: b.T, RootT: et}, Ty: et}
+			}
+		}
+	}
 	return b
 }
 
@@ -422,6 +457,11 @@ func (vc *VC) applyContractX(fr *Frame, spec *FuncSpec, name string, sig *types.
 			vc.oblige("call-pre", name+":"+vc.clauseLabel("requires", rq, i), t, pos, "precondition of "+name+": "+rq.Src)
 		}
 	}
+	for _, sp := range spec.Spawns {
+		if fv, ok := env.vars[sp]; ok {
+			vc.checkSpawn(fr, fv, pos)
+		}
+	}
 	if contains(spec.LockHeld, "*") && !vc.lockChecksOff && len(vc.st.held) == 0 {
 		vc.oblige("lock", "callee-needs-lock:"+name, "false", pos, name+" must be called with the protecting lock held")
 	}
@@ -429,6 +469,9 @@ func (vc *VC) applyContractX(fr *Frame, spec *FuncSpec, name string, sig *types.
 	if spec.ModAll {
 		vc.havocAll("callee " + name + " declares modifies *")
 	} else {
+		if spec.ModHeap {
+			vc.havocHeap("callee " + name + " declares modifies heap")
+		}
 		locs := vc.evalModifies(spec, env)
 		for _, m := range locs {
 			vc.frameCheck(m.Heap, m.Idx, pos)
@@ -584,6 +627,13 @@ func (vc *VC) evalModEntry(e *SExpr, env *Env) (locs []ModLoc, err error) {
 				return nil, fmt.Errorf("allelems() needs an element type")
 			}
 			hn, hs := vc.elemHeap(tv)
+			return []ModLoc{{Heap: hn, Sort: hs}}, nil
+		case "allcells":
+			tv := vc.tryType(e.Args[1], env)
+			if tv == nil {
+				return nil, fmt.Errorf("allcells() needs a type")
+			}
+			hn, hs := vc.cellHeap(tv)
 			return []ModLoc{{Heap: hn, Sort: hs}}, nil
 		case "allmaps":
 			tv := vc.tryType(e.Args[1], env)
@@ -807,6 +857,32 @@ func (vc *VC) lockReadCheck(l *Loc, pos token.Pos) {
 		goal = vc.isFresh(l.Base)
 	}
 	vc.oblige("lock", "read-held:"+l.Heap, goal, pos, "read of lock-protected storage "+l.Heap+" without holding the lock")
+}
+
+// checkSpawn checks, where a closure is handed over to run later, that its
+// precondition holds for the values it captured.
+func (vc *VC) checkSpawn(fr *Frame, fv *Val, pos token.Pos) {
+	if fv.Clo == nil {
+		vc.used.Assumes["a function value handed to a spawner is not known statically at "+vc.p.relPos(pos)] = true
+		return
+	}
+	callee := fv.Clo.Fn
+	spec := vc.p.specFor(callee)
+	if spec == nil {
+		vc.used.Assumes["spawned closure "+calleeShort(callee.String())+" has no contract: its effects are not part of the spawning function's proof"] = true
+		return
+	}
+	env := &Env{vars: map[string]*Val{}, st: vc.st, old: vc.st, pkg: spec.Pkg, imports: spec.Imports}
+	for i, b := range fv.Clo.Bindings {
+		if i < len(callee.FreeVars) {
+			env.vars[callee.FreeVars[i].Name()] = vc.freeVarSpecVal(b)
+		}
+	}
+	for i, rq := range spec.Requires {
+		if t, ok := vc.evalBool(rq, env); ok {
+			vc.oblige("spawn-pre", calleeShort(callee.String())+":"+vc.clauseLabel("requires", rq, i), t, pos, "precondition of the closure handed over to run later: "+rq.Src)
+		}
+	}
 }
 
 func (vc *VC) execGo(fr *Frame, in *ssa.Go, pos token.Pos) {
